@@ -26,6 +26,7 @@ type c09Client struct {
 	Kind    string   `json:"transport"`
 	StartMs int      `json:"start_offset_ms"`
 	Ops     []string `json:"ops"` // data | host | ka | unk | close | ooo | fin | rst  (close/ooo/fin/rst end the script)
+	SecondIn bool    `json:"second_in_early,omitempty"` // legacy: RDG_IN_DATA is retried with the same connection id before the first one sent its preamble
 }
 
 type c09Case struct {
@@ -43,6 +44,7 @@ func genC09(t *rapid.T) c09Case {
 	k := rapid.IntRange(2, 12).Draw(t, "clients")
 	for i := 0; i < k; i++ {
 		cl := c09Client{Kind: genKind(t), StartMs: rapid.IntRange(0, 4).Draw(t, "start")}
+		cl.SecondIn = cl.Kind == "legacy" && rapid.IntRange(0, 4).Draw(t, "secondIn") == 0
 		n := rapid.IntRange(0, 6).Draw(t, "nops")
 		for j := 0; j < n; j++ {
 			cl.Ops = append(cl.Ops, rapid.SampledFrom([]string{"data", "data", "host", "host", "ka", "unk"}).Draw(t, "op"))
@@ -107,16 +109,42 @@ func findHost(l *backend.Listener, from int, tag []byte, d time.Duration) *backe
 
 func runC09Client(i int, cl c09Client, o gwOpts, tgt gwc.Target, from int) (err string) {
 	w := W()
-	conn, e := gwc.Dial(cl.Kind, tgt, sess.NewConnID())
-	if e != nil {
-		return fmt.Sprintf("client %d: transport did not open: %v", i, e)
-	}
-	defer conn.Close()
 	cookie := "none"
 	if o.TokenAuth {
 		cookie = "valid:A"
 	}
 	setup, _ := render(histCfg{Opts: o, Kind: cl.Kind}, []PktSpec{{K: "hs", Caps: o.serverCaps()}, {K: "tc", Cookie: cookie}, {K: "ta"}, {K: "cc", Host: "A"}}, "127.0.0.1")
+	var conn gwc.Conn
+	var e error
+	if cl.SecondIn && cl.Kind == "legacy" {
+		id := sess.NewConnID()
+		var l *gwc.Legacy
+		if l, e = gwc.OpenOut(tgt, id); e == nil {
+			l.HoldPreamble = true
+			if e = l.OpenIn(tgt, id); e != nil {
+				l.Close()
+			} else {
+				// the retry: a gateway that serves it too gets the same set-up on it
+				if l2, e2 := gwc.OpenInOnlyHeld(tgt, id); l2 != nil {
+					if e2 == nil && l2.SendPreamble() == nil {
+						l2.Pipeline = true
+						for _, u := range setup {
+							l2.Send(u)
+						}
+					}
+					defer l2.Close()
+				}
+				l.SendPreamble()
+				conn = l
+			}
+		}
+	} else {
+		conn, e = gwc.Dial(cl.Kind, tgt, sess.NewConnID())
+	}
+	if e != nil {
+		return fmt.Sprintf("client %d: transport did not open: %v", i, e)
+	}
+	defer conn.Close()
 	for _, u := range setup {
 		conn.Send(u)
 	}
